@@ -90,11 +90,24 @@ def oracle(case) -> Result:
     depth = len(stack) + len(decorators)
     nontrivial = False
     for side in ("wsgi", "asgi"):
-        rq = gw.areq(method=rqd.get("method", "GET"), path="/m", headers=headers, body=[b"payload"] if rqd.get("method") == "POST" else [])
+        body = [b"payload"] if rqd.get("method") == "POST" else []
+        if rqd.get("body") is not None:
+            body = list(rqd["body"])
+            headers = headers + [["Content-Type", rqd.get("ctype", "application/octet-stream")]]
+        rq = gw.areq(method=rqd.get("method", "GET"), path="/m", headers=headers, body=list(body))
         bare, bheads, bbuilt = one(side, inner, rq)
-        rq2 = gw.areq(method=rqd.get("method", "GET"), path="/m", headers=headers, body=[b"payload"] if rqd.get("method") == "POST" else [])
+        rq2 = gw.areq(method=rqd.get("method", "GET"), path="/m", headers=headers, body=list(body))
         wrapped, wheads, wbuilt = one(side, wrap(inner, stack, decorators), rq2)
-        ctx = f"{side} inner {inner!r} stack {stack!r} decorators {decorators!r}"
+        ctx = f"{side} inner {inner!r} stack {stack!r} decorators {decorators!r}" + (f" request body {body!r} as {rqd.get('ctype')!r}" if rqd.get("body") is not None else "")
+        if inner["app"] == "echo" and bbuilt.stash != wbuilt.stash:
+            # what the view sees of the request (line, headers, body / json / form in the given access order)
+            # is the same behind any number of pass-through layers
+            diff = []
+            for be, we in zip(bbuilt.stash, wbuilt.stash):
+                diff += [(k, be.get(k), we.get(k)) for k in sorted(set(be) | set(we)) if be.get(k) != we.get(k)]
+            if len(bbuilt.stash) != len(wbuilt.stash):
+                diff.append(("views-run", len(bbuilt.stash), len(wbuilt.stash)))
+            r.fail(f"C20:{side}:request-view-differs:{','.join(sorted({d[0] for d in diff}))[:50]}", f"{ctx}: (accessor, bare, wrapped) = {diff[:3]!r}")
         leaf = recipes.leaf_calls(wbuilt)
         if len(leaf) != 1:
             r.fail(f"C20:{side}:inner-call-count", f"{ctx}: inner application ran {len(leaf)} times")
@@ -167,8 +180,20 @@ def raw_app(draw):
 
 @st.composite
 def stack_case(draw):
-    kind = draw(st.sampled_from(["response", "view", "raw", "raw"]))
+    kind = draw(st.sampled_from(["response", "view", "raw", "raw", "echo"]))
     decorators = []
+    if kind == "echo":
+        inner = {"app": "echo", "order": draw(st.lists(st.sampled_from(["body", "json", "form", "stream"]), min_size=1, max_size=3, unique=True))}
+        decorators = draw(st.lists(st.sampled_from(["identity", "identity", "add"]), max_size=2))
+        depth = draw(st.sampled_from([0, 1, 1, 2, 3]))
+        stack = [draw(st.sampled_from(["identity", "identity", "add", "replace", "delete"])) for _ in range(depth)]
+        ctype, body = draw(st.sampled_from([
+            ("application/json", [b'{"a": [1, 2, 3], "b": "\xc3\xa9"}']), ("application/json", [b'{"a": ', b"1}"]), ("application/json", [b"{bad"]),
+            ("application/x-www-form-urlencoded", [b"a=1&b=2&a=3"]), ("application/x-www-form-urlencoded", [b"a=1", b"&b=%C3%A9"]),
+            ('multipart/form-data; boundary="XbX"', [b'--XbX\r\nContent-Disposition: form-data; name="f"\r\n\r\nvalue\r\n--XbX\r\nContent-Disposition: form-data; name="u"; filename="u.bin"\r\n\r\n\x00\x01\r\n--XbX--\r\n']),
+            ("text/plain", [b"plain ", b"", b"text"]), ("application/octet-stream", []),
+        ]))
+        return {"inner": inner, "stack": stack, "decorators": decorators, "request": {"method": draw(st.sampled_from(["POST", "PUT", "GET"])), "body": body, "ctype": ctype}}
     if kind == "raw":
         inner = draw(raw_app())
     else:
